@@ -1,5 +1,6 @@
 import QuantemModel.Lemmas.Dataset
 import QuantemModel.Lemmas.DatasetCrop
+import QuantemModel.Lemmas.DatasetHeap
 /-!
 C03 — Dataset containers stay coherent under any history of operations.
 Theorems about the state machine `Model/Dataset.lean` (array + calibration + class under
@@ -359,6 +360,157 @@ theorem getitem_multilist_raises {d : Ds} {ix : List Item} {p : Plan} (h : plan 
     unfold getitem; rw [h]; simp [hm]
   exact ⟨h1, by simp [step, h1]⟩
 
+/-! ### aliasing: the heap layer (`Model/DatasetHeap.lean`) — every dataset object holds a
+reference to the buffer behind its `array` and to its `origin` / `sampling` arrays -/
+
+section Heap
+open QuantemModel.DatasetHeap
+
+/-- **the no-sharing contract holds after every history**: from the empty heap, after any
+finite sequence of constructions, copies, copying and in-place pad/crop/bin/fourier_resample,
+indexing (views and copies), derived datasets, setters and element-wise updates: every cell
+is allocated, origin and sampling of a dataset are different arrays, two different datasets
+never hold a common origin/sampling array, and no calibration array is a data buffer. -/
+theorem alias_inv_all_histories (ops : List HOp) : HInv (run init ops) :=
+  hinv_run ops init hinv_init
+
+/-- **no operation on one dataset changes another one** (`alias_free_all_histories`): after any
+history, whatever operation comes next — in-place operation, setter, element-wise update
+(`ds.sampling *= 2`, `ds.origin[0] = 3`) or an operation returning a new dataset — every other
+existing dataset `j` shows the same calibration as before, and the same data unless the
+operation is an element write into the array of a dataset holding the very same buffer (the
+documented exception: `__getitem__` views). -/
+theorem alias_free_all_histories (ops : List HOp) (op : HOp) (j : Nat)
+    (hj : j < (run init ops).objs.length) (hr : recv op ≠ some j) :
+    obsCal (step (run init ops) op) j = obsCal (run init ops) j ∧
+    (obsArr (step (run init ops) op) j = obsArr (run init ops) j ∨
+      ∃ i v oi oj, op = .writeArray i v ∧ (run init ops).objs[i]? = some oi ∧
+        (run init ops).objs[j]? = some oj ∧ oi.buf = oj.buf) :=
+  step_frame (alias_inv_all_histories ops) op j hj hr
+
+/-- **what a returned dataset holds**: after any history, `copy()`, the copying variants of
+pad/crop/bin/fourier_resample, list indexing and the derived datasets return an object whose
+array buffer, origin and sampling are all newly allocated (ids beyond everything any existing
+dataset holds); a `__getitem__` view shares exactly one cell with its source — the array
+buffer — while its origin and sampling are new. -/
+theorem returned_datasets_fresh (ops : List HOp) (i : Nat) (oi : Obj)
+    (hi : (run init ops).objs[i]? = some oi) :
+    (∀ op ∈ [HOp.copy i, .padCp i, .cropCp i, .binCp i, .resampleCp i, .getitemCopy i, .derived i],
+      (step (run init ops) op).objs = (run init ops).objs ++
+          [⟨(run init ops).next, (run init ops).next + 1, (run init ops).next + 2⟩] ∧
+      ∀ o ∈ (run init ops).objs, o.buf < (run init ops).next ∧ o.org < (run init ops).next ∧
+        o.smp < (run init ops).next) ∧
+    ((step (run init ops) (.getitemView i)).objs = (run init ops).objs ++
+          [⟨oi.buf, (run init ops).next, (run init ops).next + 1⟩] ∧
+      ∀ o ∈ (run init ops).objs, o.org < (run init ops).next ∧ o.smp < (run init ops).next ∧
+        o.buf ≠ (run init ops).next ∧ o.buf ≠ (run init ops).next + 1) :=
+  returned_cells (alias_inv_all_histories ops) i oi hi
+
+-- non-vacuity: a history with a copy, a view, an in-place pad and element-wise updates
+example : (run init [.new, .copy 0, .getitemView 0, .writeSampling 1 5, .padIp 0]).objs
+    = [⟨8, 1, 2⟩, ⟨3, 4, 5⟩, ⟨0, 6, 7⟩] := rfl
+example : recv (.writeSampling 1 5) ≠ some 0 := by simp [recv]
+
+end Heap
+
+/-! ### dtype kind (bool / int / float / complex) through the operations -/
+
+/-- **dtype rules, for every operation and every dtype kind**: on a coherent dataset the result
+of the in-place variant (hence, by `inplace_eq_copy`, the dataset returned by the copying
+variant — same dtype included) has kind: pad, crop — unchanged; bin — `binKind` (`np.sum` makes
+booleans integers, the mean reducer makes booleans and integers floats, floats and complex stay);
+fourier_resample — complex stays complex, everything else becomes float; the `array` setter —
+the kind of the array assigned (never cast back to the old dtype). -/
+theorem dtype_rules {d a : Ds} {r : Option Ds} :
+    (∀ arg, step d (.pad arg true) = .ok (a, r) → a.kind = d.kind) ∧
+    (∀ w ax, step d (.crop w ax true) = .ok (a, r) → a.kind = d.kind) ∧
+    (∀ f ax m b, step d (.bin f ax m b true) = .ok (a, r) → a.kind = binKind d.kind m) ∧
+    (∀ arg ax, step d (.resample arg ax true) = .ok (a, r) →
+        a.kind = (if d.kind = .complex then .complex else .float)) ∧
+    (∀ sh dat k, step d (.setArray sh dat k) = .ok (a, r) → a.kind = k) := by
+  refine ⟨?_, ?_, ?_, ?_, ?_⟩
+  · intro arg h
+    simp only [step, pad] at h
+    split at h
+    · simp at h
+    · simp at h; rw [← h.1]
+  · intro w ax h
+    simp only [step, crop] at h
+    split at h
+    · simp at h
+    · split at h
+      · simp at h
+      · simp only [if_true] at h
+        split at h
+        · simp at h
+        · rename_i x hx
+          simp at h
+          rw [← h.1]
+          unfold setArray at hx
+          split at hx
+          · simp at hx
+          · simp at hx; rw [← hx]
+  · intro f ax m b h
+    simp only [step, bin] at h
+    split at h
+    · simp at h
+    · split at h
+      · simp at h
+      · split at h
+        · simp at h
+        · split at h
+          · simp at h
+          · simp at h; rw [← h.1]
+  · intro arg ax h
+    simp only [step, resample] at h
+    split at h
+    · simp at h
+    · split at h
+      · simp at h
+      · split at h
+        · simp at h
+        · split at h
+          · simp at h
+          · simp at h
+            rw [← h.1]
+  · intro sh dat k h
+    simp only [step] at h
+    split at h
+    · simp at h
+    · rename_i x hx
+      simp at h
+      rw [← h.1]
+      unfold setArray at hx
+      split at hx
+      · simp at hx
+      · simp at hx; rw [← hx]
+
+/-- the dtype table of `bin` -/
+theorem binKind_table :
+    binKind .bool false = .int ∧ binKind .int false = .int ∧ binKind .float false = .float ∧
+    binKind .complex false = .complex ∧ binKind .bool true = .float ∧ binKind .int true = .float ∧
+    binKind .float true = .float ∧ binKind .complex true = .complex := by decide
+
+/-! ### Ellipsis expansion -/
+
+/-- **one Ellipsis, at any position, also standing for no axis**: with `pre` items before and
+`post` items after it (none of them an Ellipsis, together at most `ndim`), the expression is
+normalised to `pre ++ (ndim - |pre| - |post|) full slices ++ post` — `getitem_spec` /
+`getitem_axes` then describe the result through exactly these items; without an Ellipsis the
+expression is padded with trailing full slices; **two Ellipses are rejected** (IndexError), and
+so are more items than axes. -/
+theorem ellipsis_expansion (nd : Nat) (pre post : List Item)
+    (hpre : ∀ it ∈ pre, it.isEllipsis = false) (hpost : ∀ it ∈ post, it.isEllipsis = false) :
+    (pre.length + post.length ≤ nd →
+      expandItems nd (pre ++ [Item.ellipsis] ++ post)
+        = .ok (pre ++ List.replicate (nd - pre.length - post.length) Item.full ++ post)) ∧
+    (pre.length ≤ nd → expandItems nd pre = .ok (pre ++ List.replicate (nd - pre.length) Item.full)) ∧
+    (∀ mid, (∀ it ∈ mid, it.isEllipsis = false) →
+      expandItems nd (pre ++ [Item.ellipsis] ++ mid ++ [Item.ellipsis] ++ post) = .error .index) ∧
+    (nd < pre.length → expandItems nd pre = .error .index) :=
+  ⟨fun hle => ellipsis_one nd pre post hpre hpost hle, (ellipsis_none nd pre hpre).1,
+   fun mid hmid => ellipsis_two nd pre mid post hpre hmid hpost, (ellipsis_none nd pre hpre).2⟩
+
 /-! ### exact error guards -/
 
 /-- `crop` without `axes` raises exactly when `crop_widths` does not have one entry per axis
@@ -473,5 +625,15 @@ example : ∃ r, step ex3 (.frame 2) = .ok (ex3, some r) ∧ r.cls = .d2 ∧ r.u
 
 -- a two-list expression NumPy accepts: the plan exists and is multi-list
 example : ∃ p, plan ex3.shape [.list [0, 1], .list [1, 2]] = .ok p ∧ p.multiList = true := ⟨_, rfl, rfl⟩
+
+-- every position of an Ellipsis on a 3-D dataset, also where it stands for no axis: the plan exists
+-- and the Ellipsis between an integer and a list separates them (list axis first)
+example : ∃ p, plan ex3.shape [Item.full, .int 1, .ellipsis, .list [0, 2]] = .ok p ∧ p.order = [2, 0] ∧
+    p.items = [Item.full, .int 1, .list [0, 2]] := ⟨_, rfl, rfl, rfl⟩
+example : ∃ p, plan ex3.shape [.ellipsis, Item.full, .int 1, .list [0, 2]] = .ok p ∧ p.order = [0, 2] :=
+  ⟨_, rfl, rfl⟩
+example : ∃ p, plan ex3.shape [.int 1, .ellipsis] = .ok p ∧ p.items = [.int 1, Item.full, Item.full] :=
+  ⟨_, rfl, rfl⟩
+example : plan ex3.shape [.ellipsis, .int 0, .ellipsis] = .error .index := rfl
 
 end QuantemModel.Props.C03
